@@ -204,3 +204,9 @@ def run(ctx):
     pcs = [cname(t["func"]) for _, t in tc.calls()]
     ctx.ob("C18.init-order", any(x.endswith("peer_certificates") for x in pcs), "tls_certs() does not read the peer certificates of the TLS connection (%s)" % pcs, fn=tc.path,
            construct="peer-certs", nontrivial=False)
+
+    # `commands are served exactly as over plaintext` presupposes the same wire layer under the TLS stream (a short write
+    # of the TLS stream must not truncate a packet): the outbound wire rules run here too
+    import rules._wire as W_
+    W_.run_outbound(ctx)
+
